@@ -134,6 +134,10 @@ def r16a(model: Model, rr: RuleResult):
                 pred = TYPE_PRED.get(f.type)
                 if pred is None:
                     raise AnalysisError(f"{cname}.{on}: unexpected otData type {f.type}")
+                if isinstance(val, ast.Name):
+                    vds = cfg.reaching(at, val.id)
+                    if len(vds) == 1 and isinstance(vds[0].value, ast.Call) and norm(vds[0].value.func) == "Point" and cfg.dominates(vds[0].node, at):
+                        val = vds[0].value  # a named temporary for Point(cx, cy)
                 vnames = {n for n in names_in(val) if n not in ("Point",)}
                 covered = guarded_names(facts, pred)
                 stale = [n for c in fact_calls(facts, pred) for n in names_in(c) & vnames
@@ -192,10 +196,16 @@ def r16a(model: Model, rr: RuleResult):
                     rr.bad(fi, call, f"{cname}: scaleX/scaleY are not the xx/yy components of the affine", construct=short(ret))
             if "AroundCenter" in cname:
                 c = kws.get("center")
+                if isinstance(c, ast.Name):
+                    cds = cfg.reaching(at, c.id)
+                    if len(cds) == 1 and cds[0].value is not None:
+                        c = cds[0].value
                 if not (isinstance(c, ast.Call) and len(c.args) == 2 and all(isinstance(a, ast.Name) for a in c.args)):
                     raise AnalysisError(f"{cname}: center is not Point(cx, cy)")
+                from ..dataflow import inline_new_helpers
+                import types as _types
                 for a, (tr, sc) in zip(c.args, (("E", "A"), ("F", "D"))):
-                    defs = cfg.reaching(at, a.id)
+                    defs = [(_types.SimpleNamespace(value=inline_new_helpers(d.value, fi) if d.value is not None else None, node=d.node)) for d in cfg.reaching(at, a.id)]
                     good = bool(defs)
                     def is_div(v):
                         return isinstance(v, ast.BinOp) and isinstance(v.op, ast.Div) and var_is(v.left, tr) and isinstance(v.right, ast.BinOp) \
